@@ -15,9 +15,14 @@ PROFILES = {
                          decoys={"sc": [4, 6, 9], "ss": [5, 6], "th": [[1], [5], [2, 3]], "c0": [3], "c1": [3], "c2": [3], "c3": [3]})),
     "C16": dict(spec=dict(p_ig=0.05, p_args=0.4, p_generic=0.3, max_benches=18, min_benches=4), cfg=dict(actions=["test", "list", "test"], p_filters=0.15, p_ignore_flag=0.2, p_sort=0.9)),
     "C17": dict(spec=dict(p_ig=0.05, p_args=0.55, p_generic=0.35, max_benches=10, p_th=0.15), cfg=dict(actions=["test", "test", "bench"], p_filters=0.5, p_ignore_flag=0.3, p_sort=0.7)),
-    "C20": dict(spec=dict(p_sc=0.4, p_ss=0.7, p_th=0.3, p_ig=0.2, p_ctr=0.4, p_alloc=0.4, p_bcounter=0.2, max_benches=14, p_args=0.25, p_generic=0.2, p_nobench=0.05, p_inputcounter=0.08, p_free_calls=0.12),
+    "C20": dict(spec=dict(p_sc=0.4, p_ss=0.7, p_th=0.3, p_ig=0.2, p_ctr=0.4, p_alloc=0.4, p_bcounter=0.2, max_benches=14, p_args=0.25, p_generic=0.2, p_nobench=0.05, p_inputcounter=0.08, p_huge_time=0.08, p_free_calls=0.12),
                 cfg=dict(actions=["bench", "bench", "test", "list"], p_filters=0.3, p_ignore_flag=0.3, p_sort=0.4, p_runner_opts=0.3)),
 }
+
+
+# C04's end-to-end slice: C15's registries with more of the time-budget scenarios, bench runs only
+PROFILES["C04"] = dict(spec=dict(PROFILES["C15"]["spec"], p_minmax_scenario=0.35, p_budget_scenario=0.25, p_time=0.4, p_wide_counts=0.0),
+                       cfg=dict(PROFILES["C15"]["cfg"], actions=["bench"]))
 
 
 def bounded(sp, cfg):
@@ -102,6 +107,77 @@ def bulk_jobs(seed):
         cfg.job_ref = {"profile": "bulk", "tier": "quick", "seed": seed, "index": k}
         jobs.append((sp, cfg))
     return jobs
+
+
+def concurrent_use_slice(prop, tier, seed, out):
+    """Entry points used from several threads at once. C12: the registries are filled by 8 threads that push at the same moment
+    (constructors of libraries loaded in parallel); every entry is still there exactly once (case set of the terse listing).
+    C17: four threads run test_benches() / list_benches() on one runner at the same time, argument lists take 25 ms to
+    evaluate; each list is still evaluated once per process."""
+    init_parallelism()
+    rng = random.Random(seed * 90001 + int(prop[1:]))
+    bins = build.build("native", ["treedrv"])
+    exe = bins["treedrv"]
+    n = {"quick": 40, "thorough": 600}[tier]
+    jobs = []
+    while len(jobs) < n:
+        sp = TG.gen_spec(rng, dict(PROFILES["C17"]["spec"], p_ig=0.0, min_benches=6, max_benches=16))
+        if not sp.benches:
+            continue
+        cfg = TR.Config()
+        if prop == "C12":
+            sp.parreg = 8
+            cfg.intent.action = "terse"
+            cfg.intent.ignore_mode = "include"
+            cfg.cli = ["--list", "--format", "terse", "--include-ignored"]
+            cfg.env = {"NEXTEST": "1"}
+        else:
+            if not any(b.kind == "args" and b.args for b in sp.benches):
+                continue
+            cfg.run_mode = "partest"
+            cfg.intent.action = "test"
+            cfg.cli = ["--test"]
+            cfg.env = {"VERIF_ARGS_SLEEP_MS": "25"}
+        jobs.append((sp, cfg))
+
+    def one(job):
+        sp, cfg = job
+        return job, TR.run(exe, sp, cfg)
+
+    with ThreadPoolExecutor(max_workers=NCPU if prop == "C12" else 4) as ex:
+        results = list(ex.map(one, jobs))
+    st = {"runs": 0, "entries_pushed_concurrently": 0, "argument_lists_evaluated": 0}
+    for (sp, cfg), res in results:
+        out.evaluations += 1
+        if res.rc != 0:
+            out.inconclusive_shard("concurrent-use run failed rc=%s: %s" % (res.rc, res.stderr[-200:].replace("\n", " | ")))
+            continue
+        st["runs"] += 1
+        if prop == "C12":
+            st["entries_pushed_concurrently"] += len(sp.items)
+            want = sorted(c.path() for c in TG.cases(TG.build_tree(sp)))
+            listed = sorted(l[:-len(": benchmark")] for l in (getattr(res, "terse", None) or []) if l.endswith(": benchmark"))
+            if listed != want:
+                missing = [p for p in want if p not in listed]
+                extra = [p for p in listed if p not in want]
+                out.violation("C12:concurrent_registration", "%d entries pushed from 8 threads at once: cases %s are missing from the registry, %s are there without having been written" % (
+                    len(sp.items), missing[:4], extra[:4]), replay_payload(sp, cfg, res))
+        else:
+            counts = {}
+            # (four trees are printed over each other; only the invocation log after the marker is read)
+            from . import tree_parse
+            _, _, tail = res.stdout.partition(tree_parse.MARK_LOG)
+            for ln in tail.split("\n"):
+                p = ln.split(" ")
+                if p[0] == "args_eval":
+                    counts[int(p[1])] = counts.get(int(p[1]), 0) + 1
+            st["argument_lists_evaluated"] += len(counts)
+            for bid, k in counts.items():
+                if k > 1:
+                    out.violation("C17:args_evaluated_twice", "argument list of bench %d was evaluated %d times in one process (four threads using one runner at the same time)" % (bid, k),
+                                  replay_payload(sp, cfg, res))
+    out.extra["concurrent_use"] = st
+    out.require("concurrent_use_runs", st["runs"], int(0.8 * n))
 
 
 def replay_payload(sp, cfg, res):
@@ -237,9 +313,9 @@ def c14_differential(prop, results, exe, out, tier, seed):
                 unknown += 1
         ran.sort()
         if unknown:
+            # (the listing / run comparison is then left undecided; the round trip below still speaks for itself)
             out.inconclusive_shard("twin run executed %d cases the model cannot name" % unknown)
-            continue
-        if listed != ran:
+        if not unknown and listed != ran:
             missing = [p for p in ran if p not in listed]
             extra = [p for p in listed if p not in ran]
             code = "terse_misses_cases" if missing and not extra else ("terse_extra_cases" if extra and not missing else "terse_differs")
@@ -265,7 +341,8 @@ def c14_differential(prop, results, exe, out, tier, seed):
         uniq = [p for p in uniq if all_paths.count(p) == 1]
         for p in rng.sample(uniq, min(len(uniq), 2 if tier == "quick" else 4)):
             rt = TR.Config()
-            rt.builder = [b for b in cfg.builder if b[0] not in ("skip_regex", "skip_exact")]
+            # the program stays the same (its own Divan::skip_* calls included): only the command line changes
+            rt.builder = list(cfg.builder)
             rt.env = {k: v for k, v in cfg.env.items() if k != "NEXTEST"}
             keep = []
             flags = [a for a in cfg.cli if a in ("--ignored", "--include-ignored")]
@@ -341,6 +418,8 @@ def check(prop, tier, seed, out):
         from . import cratecheck
         g = cratecheck.macro_slice(prop, tier, seed, out)
         out.require("generated_crate_nodes", g.get("nodes", 0), 200)
+    if prop == "C17":
+        concurrent_use_slice(prop, tier, seed, out)
     if prop == "C13":
         out.require("cases_selected", agg.get("cases_selected", 0), 300)
         out.require("executions", agg.get("executions", 0), 300)
